@@ -18,9 +18,9 @@
    hypotheses that exclude exactly those signatures (`_partial`); the exact characterisation of what the
    current code accepts; and the full equivalence for the model with both repairs switched on
    (`_repaired`, the code of proposed_fixes/C10-1.patch + C10-2.patch). *)
-From Coq Require Import List ZArith String Bool NArith.
+From Coq Require Import List ZArith String Bool NArith Permutation.
 From FIM Require Import Base.C10Types Gen.Constraints Model.Validate10 Model.C10Pinned Model.C10Spec
-  Proofs.Validate10Tables Proofs.Validate10Main.
+  Proofs.Validate10Tables Proofs.Validate10Main Proofs.Validate10Extra.
 Import ListNotations.
 
 (* ---- the tables ---- *)
@@ -105,6 +105,26 @@ Theorem C10_site_recorded_declared : forall agree s d after,
 Proof. exact recorded_declared_pinned. Qed.
 Print Assumptions C10_site_recorded_declared.
 
+(* ---- further consequences ---- *)
+(* accept/reject does not depend on the order in which nodes and services are enumerated *)
+Theorem C10_validate_order_independent : forall n n' s s', Permutation n n' -> Permutation s s' ->
+  (snd (validate_cur (mk_slice n s)) = Ok <-> snd (validate_cur (mk_slice n' s')) = Ok).
+Proof. exact validate_cur_order_independent. Qed.
+Print Assumptions C10_validate_order_independent.
+
+(* validating again the slice that now carries the recorded sites succeeds and records the same sites *)
+Theorem C10_validate_idempotent : forall sl sts,
+  validate_cur sl = (sts, Ok) -> validate_cur (recorded sl sts) = (sts, Ok).
+Proof. exact validate_cur_idempotent. Qed.
+Print Assumptions C10_validate_idempotent.
+
+(* on well-formed input (every type has a table entry; interfaces of site-limited services belong to nodes)
+   a rejection is the documented TopologyException, never another exception *)
+Theorem C10_rejection_is_topology_exception : forall sl, slice_wf pinned_tables sl = true ->
+  snd (validate_cur sl) = Ok \/ snd (validate_cur sl) = Err ETopology.
+Proof. exact validate_cur_class. Qed.
+Print Assumptions C10_rejection_is_topology_exception.
+
 (* ---- connect time ---- *)
 (* the constructor path refuses exactly L2PTP x SharedPort, with a TopologyException ... *)
 Theorem C10_guardrail_exact : forall st it,
@@ -134,6 +154,9 @@ Proof. split; [exact example_valid_allowed | exact example_valid_sites]. Qed.
 Example C10_nonvacuous_hyps :       (* ... and the hypotheses of the partial theorem (it has a facility and a declared site) *)
   facilities_meet_constraints pinned_tables example_valid /\ declared_sites_agree pinned_tables example_valid.
 Proof. exact (allowed_full_hyps example_valid example_valid_allowed). Qed.
+
+Example C10_nonvacuous_wf : slice_wf pinned_tables example_valid = true.
+Proof. exact example_valid_wf. Qed.
 
 Example C10_nonvacuous_invalid :
   snd (validate_cur (mk_slice [] [mk_asvc "L2PTP" None []
